@@ -82,7 +82,10 @@ def cases(tier, seed):
     # schema, every response content kind): one document per shape
     from . import c01
 
-    shapes = c01.op_cases("quick") + [ops.op("post", "/raw", [], {"kind": k, "required": True}, {"204": "none"}) for k in ("octet-noschema", "json-noschema", "multipart-noschema")]
+    for g in ops.shared_item_groups():   # several operations under one path item with path-level parameters
+        out.append({"shapes": g, "strategy": "operationId", "fmt": "json"})
+        out.append({"shapes": g, "strategy": "operationId", "fmt": "json", "refs": True})
+    shapes = [c for c in c01.op_cases("quick") if c.get("item") is None] + [ops.op("post", "/raw", [], {"kind": k, "required": True}, {"204": "none"}) for k in ("octet-noschema", "json-noschema", "multipart-noschema")]
     for sh in shapes:  # one shape per document: a shape whose package does not import (C01's subject) must not hide the others
         out.append({"shapes": [sh], "strategy": "operationId", "fmt": "json"})
         if sh["params"] or sh.get("body"):
